@@ -367,7 +367,21 @@ class MayRaise:
         child = node
         while p is not None and not isinstance(p, (ast.FunctionDef, ast.AsyncFunctionDef)):
             if isinstance(p, ast.If) and any(child is x for x in p.body):
-                for n in ast.walk(p.test):
+                tests = [p.test]
+                # a condition kept in a local that is bound once, before the test (`must_raise = mode == ERR_RAISE; if must_raise:`), is that condition
+                fn = p
+                while fn is not None and not isinstance(fn, (ast.FunctionDef, ast.AsyncFunctionDef)):
+                    fn = self.repo.parent(fn)
+                if fn is not None and isinstance(p.test, ast.Name):
+                    binds = [a for a in ast.walk(fn) if isinstance(a, (ast.Assign, ast.AugAssign, ast.AnnAssign, ast.For, ast.NamedExpr, ast.With))
+                             and any(isinstance(x, ast.Name) and x.id == p.test.id and isinstance(x.ctx, ast.Store) for x in ast.walk(a) if not isinstance(x, ast.expr) or isinstance(x, ast.Name))]
+                    if len(binds) == 1 and isinstance(binds[0], ast.Assign) and len(binds[0].targets) == 1 and isinstance(binds[0].targets[0], ast.Name) \
+                            and self.repo.parent(binds[0]) is fn and binds[0].lineno < p.lineno:
+                        tests = [binds[0].value]
+                conjuncts = []
+                for t_ in tests:
+                    conjuncts.extend(t_.values if (isinstance(t_, ast.BoolOp) and isinstance(t_.op, ast.And)) else [t_])  # the comparison itself, or a conjunct: not under `or` / `not`
+                for n in conjuncts:
                     if isinstance(n, ast.Compare) and len(n.ops) == 1 and isinstance(n.ops[0], ast.Eq):
                         for side in (n.left, n.comparators[0]):
                             v = self.eng.const_of(self._f.module, side)
